@@ -36,12 +36,16 @@ type ExploreOpts struct {
 	Config       string
 	PreemptBound int
 	DevBound     int
-	MaxExecs     int
-	Deadline     time.Time
-	Race         bool
-	StepBudget   int
-	Shard        int
-	NShards      int
+	// DelayBound, if >0, additionally bounds the total number of non-default
+	// choices of any kind in one execution (delay-bounded scheduling): also the
+	// "free" switches at blocking points count. 0 = unbounded.
+	DelayBound int
+	MaxExecs   int
+	Deadline   time.Time
+	Race       bool
+	StepBudget int
+	Shard      int
+	NShards    int
 }
 
 // Stats are the counters every explorer reports.
@@ -102,6 +106,9 @@ func Explore(o ExploreOpts, body func(s *Sched) *ExecOutcome) *ExploreResult {
 	st.endStates = map[string]struct{}{}
 	st.nontrivialSet = map[string]struct{}{}
 	st.Bound = fmt.Sprintf("preemptions<=%d,deviations<=%d", o.PreemptBound, o.DevBound)
+	if o.DelayBound > 0 {
+		st.Bound += fmt.Sprintf(",non-default choices<=%d", o.DelayBound)
+	}
 	e.explore(nil, nil, 0, 0, 0)
 	st.States = len(st.endStates)
 	st.Nontrivial = len(st.nontrivialSet)
@@ -187,6 +194,9 @@ func (e *explorer) explore(prefix []int, sigs []uint64, pre, dev, level int) {
 				npre++
 			}
 			if npre > e.o.PreemptBound || ndev > e.o.DevBound {
+				continue
+			}
+			if e.o.DelayBound > 0 && level+1 > e.o.DelayBound {
 				continue
 			}
 			if level+1 == 2 {
